@@ -310,7 +310,8 @@ def main():
         diagnostics.reduce()
         if (rank == 0):
             diagnosticFile = open(diagnostic_filename, "a")
-            for i in range(ti % saveStep):
+            # the steps since the last save were collected in slots 1..ti % saveStep
+            for i in range(1, ti % saveStep + 1):
                 print(diagnostics.getLine(i), file=diagnosticFile)
             diagnosticFile.close()
 
